@@ -48,7 +48,7 @@ def omit_files(ds, what):
     return ("%s.capnpbin" % what,)
 
 
-def modify(rng, ds, scen_too=True):
+def modify(rng, ds, scen_too=True, new_line=False):
     """A second dataset on the same stops / footpaths / lines / paths (deep copy): some trips dropped, whole trips moved by
     +-60..900 s, some trips delayed from one stop on (times stay >= 0 and ordered), scenario 2's service list changed."""
     d = copy.deepcopy(ds)
@@ -76,6 +76,30 @@ def modify(rng, ds, scen_too=True):
     d.trips = trips
     if scen_too and rng.chance(0.7):
         d.scens = [(sid, ([rng.choice([[2], [1, 2]])] + [list(x) for x in ls[1:]]) if sid == 2 else ls) for (sid, ls) in d.scens]
+    if new_line and d.paths and d.trips:
+        # names=all only: B also has a line (with a path and trips) that A does not have, and scenario 3 of B filters on it
+        # (except-line or only-line list naming the NEW line): a refresh that resolves the scenario lists against the old
+        # lines, or reloads the collections in an order that leaves references to freed lines, answers differently from a
+        # fresh server on scenario 3
+        nl = max(l[0] for l in d.lines) + 1
+        # the path with the most trips is taken over by the new line: its trips move to a new path of the new line
+        by_path = {}
+        for t in d.trips:
+            by_path[t[1]] = by_path.get(t[1], 0) + 1
+        busiest = max(sorted(by_path), key=lambda k: by_path[k])
+        src_path = [p for p in d.paths if p[0] == busiest][0]
+        np_ = max(p[0] for p in d.paths) + 1
+        d.lines.append((nl, d.lines[0][1], rng.choice([1, 2])))
+        d.paths.append((np_, nl, list(src_path[2]), list(src_path[3])))
+        d.trips = [(tid, np_ if path == busiest else path, service, times) for (tid, path, service, times) in d.trips]
+        def relist(ls):
+            ls = [list(x) for x in ls]
+            if rng.chance(0.5):
+                ls[5] = sorted(set(ls[5] + [nl]))                 # exceptLines gets the new line
+            else:
+                ls[1] = [nl]                                      # onlyLines: the new line alone
+            return ls
+        d.scens = [(sid, relist(ls)) if sid == 3 else (sid, ls) for (sid, ls) in d.scens]
     return d
 
 
@@ -152,7 +176,7 @@ def history_spec(seed, tier, index):
     rng = gen.Rng((seed * 7919 + 15) * 1000 + index)
     prof = dict(gen.PROFILES["opt"], pempty=0.02)
     A = gen.gen_dataset(rng.fork(), prof)
-    B = modify(rng.fork(), A, scen_too=(kind != "k2"))
+    B = modify(rng.fork(), A, scen_too=(kind != "k2"), new_line=(kind in ("k1", "k4")))
     reqs = make_requests(rng.fork(), A, prof)
     return dict(index=index, kind=kind, cache_all=cache_all, omit=omit, names=NAMES[kind], A=A, B=B, requests=reqs)
 
